@@ -92,6 +92,10 @@ PyObject* py_dt(PyObject* self, PyObject* args) {
         PyErr_SetString(PyExc_RuntimeError, "_distance only implemented for 2-d arrays.");
         goto exit;
     }
+    if (size == 0) {
+        // Nothing to transform (and size/n below would divide by zero).
+        goto exit;
+    }
     try {
         for (int k = 0; k != ndims; ++k) {
             npy_intp cur = PyArray_DIM(f, k);
